@@ -619,3 +619,194 @@ pub fn udp(toks: Vec<Tok>) -> Vec<Tok> {
         out
     })
 }
+
+/// A SOCKS5 upstream that falls silent: the real endpoint configured with a SOCKS5 forwarder whose server accepts the connection
+/// and stops answering at a chosen step of the dialogue; the client (valid credentials) asks for a TCP tunnel or for the UDP multiplexer.
+/// in : [silent from: 0 the greeting is never answered | 1 the method selection is answered, the authentication is not | 2 the
+///       authentication is answered, the request is not | 3 nothing is withheld (control),
+///       request: 0 CONNECT 203.0.113.9:443 | 1 CONNECT _udp2, http2 (0|1), establishment timeout in ms]
+/// out: [996] | [status (0 = no response head until the wait was given up), X-Warning code, ms from the request to the response head
+///       (or to giving up, establishment timeout + 5 s), response heads seen, connections the SOCKS server accepted,
+///       of those closed by the endpoint within 1.5 s of the response]
+pub fn silent(toks: Vec<Tok>) -> Vec<Tok> {
+    let f = toks[0].clone();
+    let rt = tokio::runtime::Builder::new_multi_thread().worker_threads(2).enable_all().build().unwrap();
+    rt.block_on(async move {
+        let (mode, udp, http2, est) = (f[0], f[1] == 1, f[2] == 1, f[3] as u64);
+        let Ok(relay) = tokio::net::UdpSocket::bind("127.0.0.1:0").await else { return vec![vec![996]] };
+        let relay_port = relay.local_addr().unwrap().port();
+        let Ok(l) = TcpListener::bind("127.0.0.1:0").await else { return vec![vec![996]] };
+        let socks_addr = l.local_addr().unwrap();
+        let accepted = Arc::new(std::sync::atomic::AtomicUsize::new(0));
+        let closed = Arc::new(std::sync::atomic::AtomicUsize::new(0));
+        {
+            let (accepted, closed) = (accepted.clone(), closed.clone());
+            tokio::spawn(async move {
+                loop {
+                    let Ok((mut s, _)) = l.accept().await else { return };
+                    accepted.fetch_add(1, std::sync::atomic::Ordering::SeqCst);
+                    let closed = closed.clone();
+                    tokio::spawn(async move {
+                        // answers are written as soon as the message they answer is complete; from the silent step on, bytes are
+                        // only read (and the end of the connection noted)
+                        let mut buf = [0u8; 4096];
+                        let mut got: Vec<u8> = vec![];
+                        let mut stage = 0u128;
+                        let mut method = 0u8;
+                        loop {
+                            let progressed = if stage >= mode && mode < 3 {
+                                false
+                            } else {
+                                match stage {
+                                    0 if got.len() >= 2 && got.len() >= 2 + got[1] as usize => {
+                                        let offered = got[2..2 + got[1] as usize].to_vec();
+                                        method = if offered.contains(&2) { 2 } else { 0 };
+                                        got.clear();
+                                        let _ = s.write_all(&[5, method]).await;
+                                        stage = if method == 0 { 2 } else { 1 };
+                                        true
+                                    }
+                                    1 if got.len() >= 2 && got.len() >= 3 + got[1] as usize && got.len() >= 3 + got[1] as usize + got[2 + got[1] as usize] as usize => {
+                                        got.clear();
+                                        let _ = s.write_all(&[1, 0]).await;
+                                        stage = 2;
+                                        true
+                                    }
+                                    2 if got.len() >= 5
+                                        && match got[3] {
+                                            1 => got.len() >= 10,
+                                            4 => got.len() >= 22,
+                                            3 => got.len() >= 7 + got[4] as usize,
+                                            _ => true,
+                                        } =>
+                                    {
+                                        got.clear();
+                                        let _ = s.write_all(&[5, 0, 0, 1, 127, 0, 0, 1, (relay_port >> 8) as u8, relay_port as u8]).await;
+                                        stage = 4;
+                                        true
+                                    }
+                                    _ => false,
+                                }
+                            };
+                            if progressed {
+                                continue;
+                            }
+                            match s.read(&mut buf).await {
+                                Ok(k) if k > 0 => got.extend_from_slice(&buf[..k]),
+                                _ => {
+                                    closed.fetch_add(1, std::sync::atomic::Ordering::SeqCst);
+                                    return;
+                                }
+                            }
+                        }
+                    });
+                }
+            });
+        }
+        let make = move |addr: std::net::SocketAddr| {
+            Settings::builder()
+                .listen_address(addr)
+                .unwrap()
+                .listen_protocols(ListenProtocolSettings {
+                    http1: Some(Http1Settings::builder().build()),
+                    http2: Some(Http2Settings::builder().build()),
+                    quic: None,
+                })
+                .forwarder_settings(ForwardProtocolSettings::Socks5(
+                    Socks5ForwarderSettings::builder().server_address(socks_addr).unwrap().build().unwrap(),
+                ))
+                .connection_establishment_timeout(Duration::from_millis(est))
+                .build()
+                .unwrap()
+        };
+        let auth: Option<Arc<dyn Authenticator>> = Some(Arc::new(RegistryBasedAuthenticator::new(&crate::engines::c01::clients())));
+        let Some(ep) = crate::front::start(make, crate::ctxutil::basic_hosts, auth).await else {
+            return vec![vec![996]];
+        };
+        let target = if udp { "_udp2" } else { "203.0.113.9:443" };
+        let patience = Duration::from_millis(est + 5000);
+        let (status, warn, ms, heads);
+        if http2 {
+            let Some(s) = crate::front::tls_connect(ep.addr, "localhost", &[b"h2"]).await else { return vec![vec![996]] };
+            let Ok(Ok((send, conn))) = tokio::time::timeout(Duration::from_secs(3), h2::client::handshake(s)).await else { return vec![vec![996]] };
+            let driver = tokio::spawn(async move {
+                let _ = conn.await;
+            });
+            let req = http::Request::builder()
+                .method("CONNECT")
+                .uri(target)
+                .header("proxy-authorization", "Basic dTE6cDE=")
+                .header("user-agent", "verif-agent")
+                .body(())
+                .unwrap();
+            let Ok(mut sr) = send.clone().ready().await else { return vec![vec![996]] };
+            let t0 = std::time::Instant::now();
+            let Ok((resp, _stream)) = sr.send_request(req, false) else { return vec![vec![996]] };
+            match tokio::time::timeout(patience, resp).await {
+                Ok(Ok(r)) => {
+                    ms = t0.elapsed().as_millis();
+                    status = r.status().as_u16() as u128;
+                    warn = r
+                        .headers()
+                        .get("x-warning")
+                        .map(|v| String::from_utf8_lossy(v.as_bytes()).chars().take_while(|c| c.is_ascii_digit()).collect::<String>())
+                        .and_then(|v| v.parse().ok())
+                        .unwrap_or(0);
+                    heads = 1;
+                }
+                _ => {
+                    ms = t0.elapsed().as_millis();
+                    status = 0;
+                    warn = 0;
+                    heads = 0;
+                }
+            }
+            tokio::time::sleep(Duration::from_millis(if status == 0 { 100 } else { 1500 })).await;
+            drop(send);
+            driver.abort();
+        } else {
+            let Some(mut s) = crate::front::tls_connect(ep.addr, "localhost", &[b"http/1.1"]).await else { return vec![vec![996]] };
+            let head = format!("CONNECT {} HTTP/1.1\r\nHost: x\r\nUser-Agent: verif-agent\r\nProxy-Authorization: Basic dTE6cDE=\r\n\r\n", target);
+            let t0 = std::time::Instant::now();
+            let _ = s.write_all(head.as_bytes()).await;
+            let mut acc = vec![];
+            let mut buf = [0u8; 4096];
+            let deadline = tokio::time::Instant::now() + patience;
+            while !acc.windows(4).any(|w| w == b"\r\n\r\n") {
+                match tokio::time::timeout_at(deadline, s.read(&mut buf)).await {
+                    Ok(Ok(n)) if n > 0 => acc.extend_from_slice(&buf[..n]),
+                    _ => break,
+                }
+            }
+            ms = t0.elapsed().as_millis();
+            let complete = acc.windows(4).any(|w| w == b"\r\n\r\n");
+            let text = String::from_utf8_lossy(&acc).to_string();
+            status = if complete { text.split(' ').nth(1).and_then(|x| x.parse().ok()).unwrap_or(0) } else { 0 };
+            warn = text
+                .lines()
+                .find_map(|l| l.to_lowercase().strip_prefix("x-warning:").map(|v| v.trim().chars().take_while(|c| c.is_ascii_digit()).collect::<String>()))
+                .and_then(|v| v.parse().ok())
+                .unwrap_or(0);
+            // anything behind the head within 1.5 s that looks like another one?
+            let mut more = vec![];
+            if complete {
+                let p = acc.windows(4).position(|w| w == b"\r\n\r\n").unwrap() + 4;
+                more.extend_from_slice(&acc[p..]);
+                let until = tokio::time::Instant::now() + Duration::from_millis(1500);
+                loop {
+                    match tokio::time::timeout_at(until, s.read(&mut buf)).await {
+                        Ok(Ok(n)) if n > 0 => more.extend_from_slice(&buf[..n]),
+                        _ => break,
+                    }
+                }
+                // (a 502 ends the connection: wait out the rest of the 1.5 s so that the upstream sockets are judged at the same moment)
+                tokio::time::sleep_until(until).await;
+            }
+            heads = complete as u128 + more.windows(9).filter(|w| *w == b"HTTP/1.1 ").count() as u128;
+        }
+        let a = accepted.load(std::sync::atomic::Ordering::SeqCst) as u128;
+        let c = closed.load(std::sync::atomic::Ordering::SeqCst) as u128;
+        drop(relay);
+        vec![vec![status, warn, ms, heads, a, c]]
+    })
+}
